@@ -42,7 +42,7 @@ CRASH_ASSUMPTIONS = COMMON_ASSUMPTIONS + [
 PROPS["C01"] = {
     "level": "fault_enumeration",
     "technique": "generated NFS programs (rapid) -> recorded disk trace -> enumeration of crash points x lost-write variants -> real recovery -> prefix oracle against the reference model; sampled second crashes during recovery and post-recovery workloads",
-    "level_text": "For each generated client program (all mutating RPCs, three stability levels, multi-block and sparse writes, truncations, removals of files large enough for the background shrinker, clean restarts with and without COMMIT) one live run records every disk write and barrier; crash points (quick: <=300 per program, commit-adjacent first; thorough: all) x loss variants are recovered with nfs.MakeNfs and the whole tree (names, handles, sizes, bytes, link targets) must equal the reference state after a prefix j with last-stable-ack <= j <= last-started. 1/16 of the recovered servers run a further workload under the sequential oracle, 1/16 are crashed again at every point of their own recovery writes. 1/48 (thorough 1/64) go on serving a second workload (unstable, data-sync and stable writes, COMMIT, truncation, rename, removal of the largest old file) on the recording image and are then cut at up to 40 (thorough 200) points of that second run and recovered again under the same prefix oracle - crash, recover, go on, crash. A concurrent unit runs 2-4 clients, each in its own directory (so what the directory must hold when one of its stable requests is acknowledged is known exactly), next to requests the journal refuses (600-block symlink targets) and 300-block stable writes; at sampled acknowledgements - and at every one during which the journal header was not written - the device image of that moment (cut, and with all un-barriered writes lost) is recovered and the client's directory compared with its own model. A further unit runs the nearly-full-disk engine (60-1500 data blocks filled to 0-3 free blocks, nearly exhausted inode table, short writes at index-block edges): at every restart action and at the end the device as it is at that moment is recovered by a second server and must show every request acknowledged so far.",
+    "level_text": "For each generated client program (all mutating RPCs, three stability levels, multi-block and sparse writes, truncations, removals of files large enough for the background shrinker, clean restarts with and without COMMIT) one live run records every disk write and barrier; crash points (quick: <=300 per program, commit-adjacent first; thorough: all) x loss variants are recovered with nfs.MakeNfs and the whole tree (names, handles, sizes, bytes, link targets) must equal the reference state after a prefix j with last-stable-ack <= j <= last-started. 1/16 of the recovered servers run a further workload under the sequential oracle, 1/16 are crashed again at every point of their own recovery writes. 1/48 (thorough 1/64) go on serving a second workload (unstable, data-sync and stable writes, COMMIT, truncation, rename, removal of the largest old file) on the recording image and are then cut at up to 40 (thorough 200) points of that second run and recovered again under the same prefix oracle - crash, recover, go on, crash. A concurrent unit runs 2-4 clients, each in its own directory (so what the directory must hold when one of its stable requests is acknowledged is known exactly), next to requests the journal refuses (600-block symlink targets) and 300-block stable writes; at sampled acknowledgements - and at every one during which the journal header was not written - the device image of that moment (cut, and with all un-barriered writes lost) is recovered and the client's directory compared with its own model. A further unit runs the nearly-full-disk engine (60-1500 data blocks filled to 0-3 free blocks, nearly exhausted inode table, short writes at index-block edges): at every restart action and at the end the device as it is at that moment is recovered by a second server and must show every request acknowledged so far. Two programs in three end with a directed tail: a file with data near the edge of the direct range and one block far out is cut to just below that data (only the background shrinker can finish such a cut) or removed, so that the trace has crash points at which a file is still shrinking; those images get a post-crash WRITE that starts inside the file and ends in the middle of the next block, growth and reads. In a third of the programs, and always at the tail's REMOVE, the client's requests rest 2 ms at their commit points (locks held, nothing handed to the journal), so that shrinker, logger and installer get ahead of them wherever the server lets them - a schedule perturbation, never a verdict.",
     "level_note": "Programs, and the timing of background threads in the live run, are sampled; crash points and loss variants are enumerated per trace as stated. Trusts the reference model (harness/checks/model.go) and the disk contract.",
     "rule": ("unit = one crash image (program, crash point k, loss variant). Non-trivial: an operation is in flight or unstable operations are pending at k "
              "(the oracle window lo<hi), or at least one un-barriered write is dropped. distinct = FNV hash of (program history, disk size, k, variant)."),
@@ -92,7 +92,7 @@ PROPS["C02"] = {
 PROPS["C04"] = {
     "level": "fault_enumeration",
     "technique": "generated histories and crash images (rapid + crash-point enumeration) judged by a structural checker (fsck) over the logical disk, built on the repository's own decoders",
-    "level_text": "fsck (pointers in the data region, single ownership incl. indirect blocks and half-freed inodes, owned => marked, inode bitmap <=> kind, tree with exactly one name per live object, unique well-formed names, '.'/'..', sizes vs mapped blocks, allocators = bitmaps) runs (a) at every 8th step and at the end of generated sequential histories with deep trees, renames, removes, truncations, clean restarts and shrinker-interrupting stops, (b) on the recovered logical disk of every explored crash image of generated programs that create, truncate and remove files large enough for multi-transaction frees, (c) on nearly-full disks, (d) on disks with two and three block-bitmap blocks (33468-66436 blocks): files are written until allocation is well inside the later bitmap blocks, some are removed, the server restarts (cleanly or with the shrinker interrupted; the allocators are rebuilt from all bitmap blocks), more files are written; fsck (exact, allocators = bitmaps) and the bytes of every file are checked after every round. (e) at the quiescent point after each enumerated two-client case of the C03 check (one request held at each of its first lock/commit points while another client completes one or two conflicting requests on the same names, children numbered below their directory, half-freed start states, files used through their handles while their names change; quick: a seed-dependent quarter, thorough: all). (f) two directories that two clients try to move into each other (or into directories inside each other) at the same time, client 0 held at each of its first fourteen lock/commit/abort points: exactly one of the two renames succeeds and the directories still form a tree (60 enumerated cases). Renames of directories to other parents, over empty directories and - to be refused - into their own subtree are part of all sequential, nearly-full-disk and crash programs.",
+    "level_text": "fsck (pointers in the data region, single ownership incl. indirect blocks and half-freed inodes, owned => marked, inode bitmap <=> kind, tree with exactly one name per live object, unique well-formed names, '.'/'..', sizes vs mapped blocks, allocators = bitmaps) runs (a) at every 8th step and at the end of generated sequential histories with deep trees, renames, removes, truncations, clean restarts and shrinker-interrupting stops, (b) on the recovered logical disk of every explored crash image of generated programs that create, truncate and remove files large enough for multi-transaction frees, (c) on nearly-full disks, (d) on disks with two and three block-bitmap blocks (33468-66436 blocks): files are written until allocation is well inside the later bitmap blocks, some are removed, the server restarts (cleanly or with the shrinker interrupted; the allocators are rebuilt from all bitmap blocks), more files are written; fsck (exact, allocators = bitmaps) and the bytes of every file are checked after every round. (e) at the quiescent point after each enumerated two-client case of the C03 check (one request held at each of its first lock/commit points while another client completes one or two conflicting requests on the same names, children numbered below their directory, half-freed start states, files used through their handles while their names change; quick: a seed-dependent quarter, thorough: all). (f) two directories that two clients try to move into each other (or into directories inside each other) at the same time, client 0 held at each of its first fourteen lock/commit/abort points: exactly one of the two renames succeeds and the directories still form a tree (60 enumerated cases). Renames of directories to other parents, over empty directories and - to be refused - into their own subtree are part of all sequential, nearly-full-disk and crash programs. A further window unit holds a COMMIT at its lock/commit points while another client removes, cuts, extends or replaces the same file: exact fsck and allocators = bitmaps after both returned and after a restart (a write-back of an inode image taken before the other request ran would leave a live inode without a name).",
     "level_note": "Sampled histories; crash points enumerated per trace (quick <=250, thorough all). The checker reads through the server's own journal object; it trusts super/inode/dirent decoders of the repository (format changes made consistently raise no alarm). Reply mismatches are C02's subject and only cut the case short here.",
     "rule": ("unit = one fsck run (quiescent state of a sequential history, or recovered crash image). Non-trivial: the state has >=3 directories and >=1 indirect block, or the crash image contains a half-freed inode. "
              "distinct = FNV hash of the history (sequential) or of (program, crash point, variant)."),
@@ -186,7 +186,7 @@ PROPS["C08"] = {
 PROPS["C11"] = {
     "level": "exploration",
     "technique": "structured hostile-argument generation (rapid) for all 22 NFS and 6 MOUNT procedures interleaved with model-checked histories; native coverage-guided fuzzing of [procedure | XDR argument bytes] against a server rebuilt from a fixed image per iteration; oracles: no panic, watchdog, per-request allocation bound, reference model / fsck still hold afterwards",
-    "level_text": "Structured: in any state of a generated history (direct or through the XDR/RPC transport) raw calls hit every procedure with handles of length 0..64 and arbitrary content, valid handles with one field changed, dead handles, names of 0..5000 bytes, offsets/counts/sizes/cookies at 0, 2^31, 2^32-1, 2^63, 2^64-k and overflow pairs, out-of-range enum values; mutating requests with hostile values (count != data length, sizes up to 2^64-1, reads of 4 GB, oversized names and link targets) go through the reference oracle so that the model keeps tracking the state. Oracle per call: no panic (recover), reply within a 20 s watchdog, TotalAlloc growth <= 48 MB; every 12 steps and at the end the whole tree still equals the reference. Byte level: fuzz target rebuilt from a fixed populated image each iteration, seeded with valid encodings of every procedure plus hostile constants; same oracle plus GETATTR(root) and fsck afterwards. quick replays the corpus; thorough runs the coverage-guided campaign. Child processes: a fatal runtime error (out of memory) or a panic in a background goroutine kills the shard and is reported as a violation with the shard as replay.",
+    "level_text": "Structured: in any state of a generated history (direct or through the XDR/RPC transport) raw calls hit every procedure with handles of length 0..64 and arbitrary content, valid handles with one field changed, dead handles, names of 0..5000 bytes, offsets/counts/sizes/cookies at 0, 2^31, 2^32-1, 2^63, 2^64-k and overflow pairs, out-of-range enum values; mutating requests with hostile values (count != data length, sizes up to 2^64-1, reads of 4 GB, oversized names and link targets) go through the reference oracle so that the model keeps tracking the state. Oracle per call: no panic (recover), reply within a 20 s watchdog, TotalAlloc growth <= 48 MB; every 12 steps and at the end the whole tree still equals the reference. Byte level: fuzz target rebuilt from a fixed populated image each iteration, seeded with valid encodings of every procedure plus hostile constants; same oracle plus GETATTR(root) and fsck afterwards. quick replays the corpus; thorough runs the coverage-guided campaign. Child processes: a fatal runtime error (out of memory) or a panic in a background goroutine kills the shard and is reported as a violation with the shard as replay. Raw calls through live handles include empty WRITEs (which cannot change the state) with stability words inside and outside the enumeration (3, 4, 7, 2^31, 2^32-1).",
     "level_note": "Not-well-formed messages (undecodable arguments) are outside the property and only counted. The 2 GB record-length allocation in go-rpcgen's framing is a dependency matter and not claimed. Wrong replies are other properties' subjects (they only cut a case short here).",
     "rule": ("unit = one hostile call. Non-trivial: the call carried at least one out-of-domain field and reached a handler (structured: by construction; fuzz: the arguments decoded). distinct = FNV hash of the call description resp. of the input bytes."),
     "assumptions": COMMON_ASSUMPTIONS,
@@ -202,7 +202,7 @@ PROPS["C11"] = {
 PROPS["C13"] = {
     "level": "exploration",
     "technique": "generated directories and paging sessions (rapid) with an incarnation-set oracle (exactly-once for entries present throughout, validity of every returned entry against the reference, progress, termination, exact replay from earlier cookies); concurrent enumerate-while-mutating variant",
-    "level_text": "Directories of 0..150 entries with names of 2..112 bytes, freed slots in the middle and slot reuse, optionally after a restart; sessions page READDIR or READDIRPLUS with count/dircount/maxcount from {0,1,10,64,100,200,300,512,1000,4096,65536}, always passing back the last cookie, with entries added and removed between pages in a third of the sessions. Oracle: every call returns an entry or eof; the session ends within slots+200 calls; every returned (name, file id[, handle, attributes]) is that of the object the name has at that moment in the reference; every entry that stays in the directory throughout is returned exactly once. Without mutations, resuming from three earlier cookies (with other size limits) must reproduce exactly the entries that followed. Concurrent unit: a READDIR client enumerates four times while a second client creates and removes other names (reusing freed slots); entries it never touches must each appear exactly once per enumeration. Directories of 520 and 700 names of 100-112 bytes (more than any reply or internal listing budget) are enumerated after a restart or cache eviction, and every listed entry is cross-checked with LOOKUP of its name (same file id). A further unit builds directories of 16 600-16 840 entries, which reach into the double-indirect range of the directory's inode, enumerates them completely with READDIR and (from slot 16 000 on) READDIRPLUS against a map of name -> (file id, handle), frees and re-takes slots at the range boundary and far out, restarts, and enumerates again. A last unit works on an inode table that is full but for 3-6 numbers, so that within one server uptime every new directory receives the number a directory or file had a few requests earlier (the old in-memory inode still cached): rounds of MKDIR, 0-5 entries, paged READDIR and READDIRPLUS against a map plus LOOKUP cross-check, removal, with files holding entry-like data taking the freed number and blocks in between. A window unit (60 enumerated cases) holds a READDIRPLUS at each of its first ten lock/commit points or device reads on a cold cache while another client removes a listed entry and makes a directory, file or symlink elsewhere that receives the freed inode number at once: every entry of the held listing must carry the handle, file id and attributes its name had in this directory.",
+    "level_text": "Directories of 0..150 entries with names of 2..112 bytes, freed slots in the middle and slot reuse, optionally after a restart; sessions page READDIR or READDIRPLUS with count/dircount/maxcount from {0,1,10,64,100,200,300,512,1000,4096,65536}, always passing back the last cookie, with entries added and removed between pages in a third of the sessions. Oracle: every call returns an entry or eof; the session ends within slots+200 calls; every returned (name, file id[, handle, attributes]) is that of the object the name has at that moment in the reference; every entry that stays in the directory throughout is returned exactly once. Without mutations, resuming from three earlier cookies (with other size limits) must reproduce exactly the entries that followed. Concurrent unit: a READDIR client enumerates four times while a second client creates and removes other names (reusing freed slots); entries it never touches must each appear exactly once per enumeration. Directories of 520 and 700 names of 100-112 bytes (more than any reply or internal listing budget) are enumerated after a restart or cache eviction, and every listed entry is cross-checked with LOOKUP of its name (same file id). A further unit builds directories of 16 600-16 840 entries, which reach into the double-indirect range of the directory's inode, enumerates them completely with READDIR and (from slot 16 000 on) READDIRPLUS against a map of name -> (file id, handle), frees and re-takes slots at the range boundary and far out, restarts, and enumerates again. A last unit works on an inode table that is full but for 3-6 numbers, so that within one server uptime every new directory receives the number a directory or file had a few requests earlier (the old in-memory inode still cached): rounds of MKDIR, 0-5 entries, paged READDIR and READDIRPLUS against a map plus LOOKUP cross-check, removal, with files holding entry-like data taking the freed number and blocks in between. A window unit (60 enumerated cases) holds a READDIRPLUS at each of its first ten lock/commit points or device reads on a cold cache while another client removes a listed entry and makes a directory, file or symlink elsewhere that receives the freed inode number at once: every entry of the held listing must carry the handle, file id and attributes its name had in this directory. After every READDIRPLUS that returned entries a second, small READDIRPLUS of the same directory is served before the first reply is read: a reply belongs to its caller and must not change.",
     "level_note": "Not asserted: that a name appears only once when it was removed and re-created during the enumeration, or that a reply fits in count bytes. The concurrent unit uses READDIR only (READDIRPLUS under concurrency is known finding KF1).",
     "rule": ("unit = one paging session (or one concurrent enumeration). Non-trivial: the session took >=3 pages or had a mutation between pages; concurrent: always (mutator active). distinct = FNV hash of (history, session index)."),
     "assumptions": COMMON_ASSUMPTIONS,
@@ -280,7 +280,7 @@ PROPS["C15"] = {
 PROPS["C16"] = {
     "level": "exploration",
     "technique": "reflection-driven value generation (rapid) for every NFS/MOUNT argument and result type with round-trip, prefix-rejection and differential (go-rpcgen rfc1813, generated from the RFC's .x file) oracles; generated and mutated byte strings through both decoders; hand-derived golden byte vectors; exhaustive dispatch check over procedure numbers with a recording stub behind the repository's registration tables and the real RPC server; native fuzzing of the decoders (thorough)",
-    "level_text": "Round trip: for each of 54 wire types a value is generated by reflection (every union arm incl. out-of-range discriminants, optional present/absent, lists of 0..3 elements, opaque/string lengths 0..67 and beyond the handle limit); its encoding must be a multiple of 4 bytes, decode+encode must reproduce the bytes, the rfc1813 codec must produce identical bytes for the field-wise copied value, and every strict prefix must be rejected. Bytes: arbitrary and mutated byte strings must be accepted/rejected alike by both decoders and re-encode identically. Golden: 24 messages whose bytes are built with an independent 20-line big-endian encoder from the RFC 1813/4506 layouts must be produced exactly and decode back. Dispatch: through rfc1057.Server over net.Pipe with the repository's *_regs tables and a recording handler, each of the 22 NFS and 6 MOUNT procedure numbers must reach the method RFC 1813 assigns to it, numbers 22..39 / 6..11 and other programs/versions must be refused. Thorough adds coverage-guided fuzzing of [type | bytes] with the differential oracle. Truncated requests at the dispatch layer: for generated argument values of every procedure that takes arguments, every strict prefix of the encoding is handed to the repository's dispatch table in front of a recording stub; the call must end in an error and the procedure must not have run.",
+    "level_text": "Round trip: for each of 54 wire types a value is generated by reflection (every union arm incl. out-of-range discriminants, optional present/absent, lists of 0..3 elements, opaque/string lengths 0..67 and beyond the handle limit); its encoding must be a multiple of 4 bytes, decode+encode must reproduce the bytes, the rfc1813 codec must produce identical bytes for the field-wise copied value, and every strict prefix must be rejected. Bytes: arbitrary and mutated byte strings must be accepted/rejected alike by both decoders and re-encode identically. Golden: 24 messages whose bytes are built with an independent 20-line big-endian encoder from the RFC 1813/4506 layouts must be produced exactly and decode back. Dispatch: through rfc1057.Server over net.Pipe with the repository's *_regs tables and a recording handler, each of the 22 NFS and 6 MOUNT procedure numbers must reach the method RFC 1813 assigns to it, numbers 22..39 / 6..11 and other programs/versions must be refused. Thorough adds coverage-guided fuzzing of [type | bytes] with the differential oracle. Truncated requests at the dispatch layer: for generated argument values of every procedure that takes arguments, every strict prefix of the encoding is handed to the repository's dispatch table in front of a recording stub; the call must end in an error and the procedure must not have run. Half of the generated opaque values are windows onto a larger buffer whose non-zero bytes go on behind them: the encoding must not depend on anything beyond the length.",
     "level_note": "The repository's nfs_xdr.go is today textually the output of the same generator as rfc1813, so the differential oracle detects any edit of the repository's copy but shares generator bugs; golden vectors and the dispatch table are the generator-independent part. cmd/*/main.go itself (portmapper registration) cannot run offline; the harness registers the same tables the same way.",
     "rule": ("unit = one generated value / byte string / golden vector / procedure number. Non-trivial: a value whose encoding succeeded and passed through all four oracles (distinct by FNV hash of type and bytes); every golden vector; every assigned procedure number. Dispatch and golden units are exhaustive over their finite tables."),
     "assumptions": COMMON_ASSUMPTIONS,
@@ -303,7 +303,7 @@ CONC_ASSUMPTIONS = COMMON_ASSUMPTIONS + [
 PROPS["C03"] = {
     "level": "exploration",
     "technique": "generated concurrent programs (rapid) for 2-4 clients over a tiny shared namespace, executed with real goroutines (direct and over the RPC transport) with seeded yield injection at lock and commit points; linearizability decided by porcupine against a compact sequential model, with a final whole-state observation appended to every history",
-    "level_text": "Programs of 3-8 operations per client over three shared directories with three file names and two directory names each, and two shared regular files: create/remove races on the same names, renames over existing targets within and across directories (files), directory renames within a parent, concurrent write/truncate/read/getattr of one file (incl. truncations large enough for the background shrinker), LOOKUP and READDIR during updates; in half of the cases the inode numbers are arranged so that children are numbered below their directories (retry paths). Every reply (status, handle, file id, type, size incl. post-operation attributes, data, listing) and a final observation of every name and file must be explained by one sequential order that respects real-time order. READDIRPLUS of the root (the one directory all of whose entries follow it in the lock order) is part of the programs: its names, the handles of the contended names and the size it reports for one shared file are judged by the model. The enumeration also starts from a state in which the lowest free inode number belongs to a removed 600-block file whose freeing was interrupted (the next CREATE/MKDIR has to finish it, dropping its directory lock meanwhile), with the first twelve lock/commit points as pause points. Further families of the enumeration: a file moved to another directory while the other client makes requests in both directories (among them creations refused after they started); a refused RENAME held at its abort point with a second client waiting for the directory and a third pushing its inode out of the cache; and READDIRPLUS of a directory against SETATTRs that set size and mtime of one of its entries together, the held client stopped at its lock/commit/abort points or, on a cold cache, at each of its first ten accesses to the device (the model tracks a client-set mtime; only requests on the file itself run next to the listing, because a request that locks the directory would meet known finding KF1).",
+    "level_text": "Programs of 3-8 operations per client over three shared directories with three file names and two directory names each, and two shared regular files: create/remove races on the same names, renames over existing targets within and across directories (files), directory renames within a parent, concurrent write/truncate/read/getattr of one file (incl. truncations large enough for the background shrinker), LOOKUP and READDIR during updates; in half of the cases the inode numbers are arranged so that children are numbered below their directories (retry paths). Every reply (status, handle, file id, type, size incl. post-operation attributes, data, listing) and a final observation of every name and file must be explained by one sequential order that respects real-time order. READDIRPLUS of the root (the one directory all of whose entries follow it in the lock order) is part of the programs: its names, the handles of the contended names and the size it reports for one shared file are judged by the model. The enumeration also starts from a state in which the lowest free inode number belongs to a removed 600-block file whose freeing was interrupted (the next CREATE/MKDIR has to finish it, dropping its directory lock meanwhile), with the first twelve lock/commit points as pause points. Further families of the enumeration: a file moved to another directory while the other client makes requests in both directories (among them creations refused after they started); a refused RENAME held at its abort point with a second client waiting for the directory and a third pushing its inode out of the cache; and READDIRPLUS of a directory against SETATTRs that set size and mtime of one of its entries together, the held client stopped at its lock/commit/abort points or, on a cold cache, at each of its first ten accesses to the device (the model tracks a client-set mtime; only requests on the file itself run next to the listing, because a request that locks the directory would meet known finding KF1). Further enumerated families: the shared file f0 cut from 600 blocks with the shrinker interrupted by a server stop, client 0's WRITE/SETATTR held at each lock/commit point of the detour in which it finishes the cut with the file unlocked, while client 1 refills, grows and cuts the file again (also with a third client evicting the inode; 180 cases, all in the quick tier); two clients moving two directories into each other with client 0 held at its first fourteen points (exactly one of the two requests succeeds in every sequential order).",
     "level_note": "Schedules are sampled, not enumerated. porcupine time-outs (none expected at this size) are counted, not judged. Hangs and panics are reported by the C06 and C11 checks. Known finding KF4 (the attributes of two different files in one READDIRPLUS listing are not a snapshot) is probed deterministically at the start and printed as KNOWN-FINDING; by construction the model judges the size of one file per listing only, the other file's sizes are counted (readdirplus_sizes_of_a_second_file_not_judged_KF4).",
     "rule": ("unit = one concurrent history. Non-trivial: at least two operations of different clients overlap in time and touch a common name or file (measured from the recorded stamps). distinct = FNV hash of the history."),
     "assumptions": CONC_ASSUMPTIONS,
